@@ -52,6 +52,11 @@
 (*  NormalizeSlash = FALSE  ("/n" not normalised)                          *)
 (*      -> SpellingInvariant violated (MC_DebFile_neg_slash.cfg)           *)
 (*                                                                         *)
+(* Queries are stateless here; DebFileCache.tla adds the history layer      *)
+(* (two open packages, explicit caches, mutation of returned dictionaries, *)
+(* re-open of a rewritten path) and checks that every answer in every      *)
+(* history equals the stateless one defined in this module.                *)
+(*                                                                         *)
 (* Output for the harness: one CASE line per evaluated Open (member list,  *)
 (* expected verdict, chosen parts, unspec flag) when Emit; one PROBE line  *)
 (* per accepted package (content + the complete table of expected query    *)
